@@ -13,7 +13,7 @@ CHECK = {
             "options, paths (namespaced, bare, invalid, with URL-significant characters) and filters; add suite: multipart ok/none/junk x every add option valid/empty/invalid x pin options, "
             "buffered and streamed (556 systematic, full header grid) + random; non-trivial = every case (each is constrained by the gate / refusal / faithfulness clauses); distinct by case line",
     "trusted_base": ["recording RPC services behind the real rest.API on loopback listeners (in-process gorpc, no authorization layer); the bundled client against the same servers",
-                     "net/url as oracle of how an unescaped path component arrives (K26); net/http error log as panic detector",
+                     "net/http error log as panic detector",
                      "the harness's classification of each request part with cid.Decode / peer.Decode and its naming tables",
                      "go/ast extractor extract_c11 (route table, wrapping order, RPC names per handler, decision logic of basicAuthHandler)"],
     "assumptions": ["a repeated query parameter counts with its first occurrence; an empty value counts as absent",
@@ -28,7 +28,7 @@ META = {
             "order and per-handler RPC names on every run (decide theorems over them) and by sending thousands of requests to the real API over recording RPC "
             "services, comparing status, body shape and recorded operations with the model and evaluating the Lean property clauses on the implementation's outputs.",
     "note": "Trusted: Lean kernel, hand-written model/spec, harness (recording services, classification of inputs), extractor. Known deviations of the unchanged tree "
-            "are recorded as K20 (405 with an empty body), K01d (client cannot decode a pin with origins), "
-            "K24 (/add reports late errors as 200+trailer/500), K26 (client does not escape path components).",
+            "are recorded as K01d (client cannot decode a pin with origins), "
+            "K24 (/add reports late errors as 200+trailer/500), K26 (client paths with '..' segments that climb out of /pins/<ns>/ perform another GET route).",
     "technique": "Lean 4 theorems over an executable request model + go/ast translator + differential correspondence over HTTP",
 }
